@@ -113,7 +113,8 @@ func c12Run(r *Run, start, preamble string) {
 	flowOK := map[string]bool{}  // does the flow work at this history point with nothing paused?
 	adminOK := map[string]bool{} // same for the administrative transactions
 	bfs := &BFS{
-		Scn: scn, MaxDepth: 32, ValidatePaths: true,
+		SeqDepth: map[bool]int{true: 2, false: 1}[start == "FF" || r.Tier == "thorough"],
+		Scn:      scn, MaxDepth: 32, ValidatePaths: true,
 		Init: func(r *Run, w *World, root *Node) {
 			do := func(a Action) Outcome {
 				o := w.Apply(a)
